@@ -340,6 +340,7 @@ class Interp:
         return env
 
     def s_Return(self, n, env):
+        self.last_env = env
         raise _Return(self.ev(n.value, env) if n.value is not None else None)
 
     def s_Raise(self, n, env):
